@@ -83,6 +83,73 @@ pub fn generate(repo: &PathBuf) -> Result<String, String> {
         return Err(format!("collect_upload_summary: {n_acc} of {n_loops} UploadComplete arms use `tokens_spent +=` and no plain assignment was found"));
     }
 
+    // ant-cli: every `println!` that shows a cost. kind `atto` = the raw integer (`.as_atto()` / `summary.tokens_spent`,
+    // an `Amount`), kind `tokens` = `Display` of an `AttoTokens` (whole tokens, 18 decimals); labelled = the format
+    // string names the unit "AttoTokens". Anything that mentions a cost but is neither shape is refused.
+    let mut print_sites: Vec<(String, &'static str, bool)> = vec![];
+    for f in ["ant-cli/src/commands/file.rs", "ant-cli/src/commands/vault.rs", "ant-cli/src/commands/register.rs"] {
+        let src = std::fs::read_to_string(repo.join(f)).map_err(|e| format!("{f}: {e}"))?;
+        let parsed = syn::parse_file(&src).map_err(|e| format!("{f}: {e}"))?;
+        for it in &parsed.items {
+            let syn::Item::Fn(func) = it else { continue };
+            let c = calls_in_block(&func.block);
+            for (name, toks) in &c.macros {
+                if name != "println" {
+                    continue;
+                }
+                let Some(lit) = toks.split('"').nth(1) else { continue };
+                let args = toks.rsplit('"').next().unwrap_or("").replace(' ', "");
+                let inline_tokens = lit.contains("{cost}") || lit.contains("{total_cost}");
+                let arg_atto = lit.contains("{}") && (args.ends_with(".as_atto()") || args.ends_with(".tokens_spent") || args.ends_with(".as_atto(),"));
+                let mentions = inline_tokens || args.contains("cost") || args.contains("tokens_spent") || args.contains("as_atto");
+                if !mentions {
+                    continue;
+                }
+                let kind = match (inline_tokens, arg_atto) {
+                    (true, false) => "CostKind.tokens",
+                    (false, true) => "CostKind.atto",
+                    _ => return Err(format!("{f}::{}: println!({toks}) shows a cost in a shape that is not recognised", func.sig.ident)),
+                };
+                print_sites.push((format!("{f}::{} {lit}", func.sig.ident), kind, lit.contains("AttoTokens")));
+            }
+        }
+    }
+    if print_sites.is_empty() {
+        return Err("ant-cli: no println! showing a cost was found".into());
+    }
+
+    // the cost sums that feed those lines: each site either wraps (`.sum::<Amount>()` / `.sum()` / `+=`: ruint's `Sum`
+    // and `AddAssign` are `wrapping_add`) or is checked (`checked_add`). Two-sided over ALL sites together.
+    let sum_sites: [(&str, &str, Option<&str>); 6] = [
+        ("autonomi/src/client/quote.rs", "price", Some("QuoteForAddress")),
+        ("autonomi/src/client/quote.rs", "price", Some("StoreQuote")),
+        ("autonomi/src/client/data/public.rs", "data_cost", Some("Client")),
+        ("autonomi/src/client/vault.rs", "vault_cost", Some("Client")),
+        ("autonomi/src/client/registers.rs", "register_cost", Some("Client")),
+        ("autonomi/src/client/files/fs_public.rs", "file_cost", Some("Client")),
+    ];
+    let mut n_wrapping = 0;
+    let mut n_checked = 0;
+    let mut sum_desc = vec![];
+    for (f, name, ty) in sum_sites {
+        let parsed = parse_file(&repo.join(f))?;
+        let func = impl_fn(&parsed, ty.unwrap_or(""), None, name)?;
+        let t = quote::ToTokens::to_token_stream(&func.block).to_string().replace(' ', "");
+        let wraps = t.contains(".sum::<Amount>()") || t.contains(".sum()") || t.contains("total_cost+=");
+        let checked = t.contains("checked_add");
+        match (wraps, checked) {
+            (true, false) => n_wrapping += 1,
+            (false, true) => n_checked += 1,
+            _ => return Err(format!("{f}::{name}: the cost sum is neither the wrapping form (`.sum()` / `+=`) nor a `checked_add` fold")),
+        }
+        sum_desc.push(format!("{}::{name}", ty.unwrap_or("")));
+    }
+    let cost_sums_checked = match (n_wrapping, n_checked) {
+        (_, 0) => false,
+        (0, _) => true,
+        _ => return Err(format!("cost sums: {n_checked} site(s) checked, {n_wrapping} wrapping — mixed, refused")),
+    };
+
     let mut s = header(rel);
     s.push_str("namespace SafeNet.Gen.Amount\n");
     s.push_str(&format!("/-- `TOKEN_TO_RAW_POWER_OF_10_CONVERSION` -/\ndef powConv : Nat := {pow}\n"));
@@ -94,6 +161,10 @@ pub fn generate(repo: &PathBuf) -> Result<String, String> {
     s.push_str(&format!("/-- `AttoTokens::checked_add` delegates to `Amount::checked_add` -/\ndef addIsChecked : Bool := {}\n", lean_bool(add_checked)));
     s.push_str(&format!("/-- `AttoTokens::checked_sub` delegates to `Amount::checked_sub` -/\ndef subIsChecked : Bool := {}\n", lean_bool(sub_checked)));
     s.push_str(&format!("/-- ant-cli `collect_upload_summary`: every arm that consumes an `UploadComplete` event adds to the running total ({n_acc} of {n_loops} arms use `+=`, {n_assign} plain assignments) -/\ndef cliSummaryAccumulates : Bool := {}\n", lean_bool(cli_accumulates)));
+    s.push_str("/-- how a cost is shown: the raw atto integer, or `Display` of `AttoTokens` (whole tokens, 18 decimals) -/\ninductive CostKind | atto | tokens\nderiving DecidableEq, Repr\n");
+    let items: Vec<String> = print_sites.iter().map(|(k, kind, l)| format!("({k:?}, {kind}, {})", lean_bool(*l))).collect();
+    s.push_str(&format!("/-- every ant-cli `println!` that shows a cost: (site and format string, kind of number, labelled \"AttoTokens\") -/\ndef costPrintSites : List (String × CostKind × Bool) := [{}]\n", items.join(", ")));
+    s.push_str(&format!("/-- the cost sums behind those lines ({}) go through `checked_add` (false: `.sum()` / `+=`, which wrap at 2^256) -/\ndef costSumsChecked : Bool := {}\n", sum_desc.join(", "), lean_bool(cost_sums_checked)));
     s.push_str("end SafeNet.Gen.Amount\n");
     Ok(s)
 }
